@@ -152,6 +152,11 @@ def run(ctx, rep):
     cursor(ctx, rep)
     wiresig(ctx, rep)
     uniqueid(ctx, rep)
+    from ..stubreach import run_stubreach
+    rep.rules_text.append("STUBREACH: a function the code base declares must-not-be-called (`DRACO_DCHECK(false); return <dummy>;`) is not reachable from the writer: no construction site, in Reach(encode), of a class whose methods call such a stub is feasible under the values its factory parameter can take (backward value flow over callers: constants, parameters with the values excluded by the branches passed, constants a callee can return)")
+    n_stub, n_sites = run_stubreach(ctx, rep)
+    rep.floor("must-not-reach markers inspected", n_stub, 2)
+    rep.floor("construction sites of stub-calling classes on the encode path", n_sites, 1)
 
     from ..rejects import run_rejects
     rep.rules_text.append("REJECT-LEDGER: every constant-bound rejection of a stream-derived field in the readers (a branch outcome that only reaches failing returns on `field op constant`) is listed in the frozen ledger rules/rejects.json; a new one narrows what the reader accepts")
